@@ -113,6 +113,12 @@ def run_impl(case):
         with time_limit(120):
             bits, st, warned, cls, dt = _call(case["order"], case["len"], case["seed"])
         res.update(status="ok", bits="".join(map(str, bits)), state=st, warned=warned, cls=cls, dtype=dt)
+        # the same request issued again in the same process must behave identically (bits, state AND the warning)
+        if case["len"] is not None and case["len"] <= 5000:
+            with time_limit(120):
+                bits2, st2, warned2, _, _ = _call(case["order"], case["len"], case["seed"])
+            res["repeat_same"] = (bits2 == bits and st2 == st)
+            res["repeat_warned"] = warned2
         if case.get("split"):
             seed = case["seed"]
             acc, s = [], seed
@@ -184,6 +190,11 @@ def oracle(case, res):
         v.append(("C04:state", f"returned state {res['state']} != {st}"))
     if res["warned"] != warned:
         v.append(("C04:warn", f"seed {seed}: warning issued={res['warned']}, required={warned}"))
+    if "repeat_same" in res:
+        if not res["repeat_same"]:
+            v.append(("C04:repeat", f"PRBS({order},{L},{seed}) called twice in a row gave different bits/state"))
+        if res["repeat_warned"] != warned:
+            v.append(("C04:repeat-warn", f"seed {seed}: second identical call warned={res['repeat_warned']}, required={warned}"))
     if "split_bits" in res:
         if res["split_bits"] != res["bits"] or res["split_state"] != res["state"]:
             v.append(("C04:resume", f"PRBS({order},{L},{seed}) in calls {case['split']} differs from one call"))
